@@ -158,6 +158,9 @@ func Monitor(evs []Ev, complete bool) [][2]string {
 			}
 		case "shutdown":
 			shutdown = true
+		case "restart":
+			// the persisted timers resume: nothing changes for the monitor - every pending token is
+			// still owed exactly one firing, not before its due time
 		}
 	}
 	if complete && !shutdown {
